@@ -382,6 +382,27 @@ fn bytes_eq(rec: &mut Rec, check: &str, class: &str, got: &[u8], exp: &[u8]) -> 
 }
 
 const REF: &str = "bytes_differ_from_reference";
+
+/// An `io::Read` that hands out at most `step` bytes per call (a socket, pipe or buffered file
+/// delivers an encoding in pieces like this); a complete encoding must still decode.
+struct Chunked<'a> {
+    data: &'a [u8],
+    step: usize,
+}
+
+impl std::io::Read for Chunked<'_> {
+    fn read(&mut self, buf: &mut [u8]) -> std::io::Result<usize> {
+        let n = self.step.min(buf.len()).min(self.data.len());
+        buf[..n].copy_from_slice(&self.data[..n]);
+        self.data = &self.data[n..];
+        Ok(n)
+    }
+}
+
+/// chunk sizes to try for an encoding of `len` bytes: one byte at a time, and two pieces
+fn chunk_steps(len: usize) -> [usize; 2] {
+    [1, len / 2 + 1]
+}
 const PRIM: &str = "differs_from_crate_primitive";
 
 fn is_boundary(vb: &BigUint, bits: usize) -> bool {
@@ -456,6 +477,10 @@ fn body_serde<const B: usize, const L: usize>(c: &Case, rec: &mut Rec) -> R {
     rec.ensure("bincode::serialized_size", "length_mismatch", sz as usize == bin.len(), || format!("serialized_size {sz} but {} bytes", bin.len()))?;
     rt(rec, "bincode::deserialize", catch(|| bincode::deserialize::<U<B, L>>(&bin)), &vb)?;
     rt(rec, "bincode::deserialize_from", catch(|| bincode::deserialize_from::<_, U<B, L>>(&bin[..])), &vb)?;
+    for step in chunk_steps(bin.len()) {
+        rt(rec, "bincode::deserialize_from(chunked)", catch(|| bincode::deserialize_from::<_, U<B, L>>(Chunked { data: &bin, step })), &vb)?;
+        rt(rec, "serde_json::from_reader(chunked)", catch(|| serde_json::from_reader::<_, U<B, L>>(Chunked { data: s.as_bytes(), step })), &vb)?;
+    }
     let bin2 = want_ok(rec, "bincode::serialize(tuple)", "encode_error", catch(|| bincode::serialize(&(v, 0xA5u8))))?;
     let mut e2 = expbin.clone();
     e2.push(0xA5);
@@ -625,6 +650,12 @@ fn body_scale_fixed<const B: usize, const L: usize>(c: &Case, rec: &mut Rec) -> 
     rt(rec, "scale::decode", r, &vb)?;
     rec.ensure("scale::decode", "not_fully_consumed", rest == [0x55], || format!("{} bytes left, expected 1", rest.len()))?;
     rt(rec, "scale::decode_all", catch(|| <U<B, L> as DecodeAll>::decode_all(&mut &out[..])), &vb)?;
+    for step in chunk_steps(out.len()) {
+        let mut rd = parity_scale_codec::IoReader(Chunked { data: &buf, step });
+        let r = catch(|| <U<B, L> as Decode>::decode(&mut rd));
+        rt(rec, "scale::decode(IoReader,chunked)", r, &vb)?;
+        rec.ensure("scale::decode(IoReader,chunked)", "not_fully_consumed", rd.0.data == [0x55], || format!("{} bytes left, expected 1", rd.0.data.len()))?;
+    }
     Ok(())
 }
 
@@ -705,6 +736,12 @@ fn body_scale_compact<const B: usize, const L: usize>(c: &Case, rec: &mut Rec) -
     let r = catch(|| CompactUint::<B, L>::decode(&mut rest).map(|x| x.0));
     rt(rec, "scale_compact::decode", r, &vb)?;
     rec.ensure("scale_compact::decode", "not_fully_consumed", rest == [0x55], || format!("{} bytes left, expected 1", rest.len()))?;
+    for step in chunk_steps(out.len()) {
+        let mut rd = parity_scale_codec::IoReader(Chunked { data: &buf, step });
+        let r = catch(|| CompactUint::<B, L>::decode(&mut rd).map(|x| x.0));
+        rt(rec, "scale_compact::decode(IoReader,chunked)", r, &vb)?;
+        rec.ensure("scale_compact::decode(IoReader,chunked)", "not_fully_consumed", rd.0.data == [0x55], || format!("{} bytes left, expected 1", rd.0.data.len()))?;
+    }
     let mut rest: &[u8] = &out;
     let r = catch(|| scale_compact_decode_via_trait::<U<B, L>>(&mut rest));
     rt(rec, "scale_compact::HasCompact::decode", r, &vb)?;
@@ -791,6 +828,16 @@ fn body_borsh<const B: usize, const L: usize>(c: &Case, rec: &mut Rec) -> R {
     let r = catch(|| <U<B, L> as BorshDeserialize>::deserialize_reader(&mut rd));
     rt(rec, "borsh::deserialize_reader", r, &vb)?;
     rec.ensure("borsh::deserialize_reader", "not_fully_consumed", rd.position() as usize == out.len(), || format!("reader at {}", rd.position()))?;
+    for step in chunk_steps(out.len()) {
+        let mut rd = Chunked { data: &buf, step };
+        let r = catch(|| <U<B, L> as BorshDeserialize>::deserialize_reader(&mut rd));
+        rt(rec, "borsh::deserialize_reader(chunked)", r, &vb)?;
+        rec.ensure("borsh::deserialize_reader(chunked)", "not_fully_consumed", rd.data == [0x55], || format!("{} bytes left, expected 1", rd.data.len()))?;
+        let r = catch(|| borsh::from_reader::<_, U<B, L>>(&mut Chunked { data: &out, step }));
+        rt(rec, "borsh::from_reader(chunked)", r, &vb)?;
+        let r = catch(|| borsh::from_reader::<_, Bits<B, L>>(&mut Chunked { data: &out, step }).map(|b| b.into_inner()));
+        rt(rec, "borsh::from_reader(chunked,Bits)", r, &vb)?;
+    }
     // Bits
     let bits = Bits::<B, L>::from(v);
     let outb = want_ok(rec, "borsh::to_vec(Bits)", "encode_error", catch(|| borsh::to_vec(&bits)))?;
@@ -1393,7 +1440,7 @@ fn main() {
     self_test();
     let spec = PropSpec {
         id: "C16",
-        rule_text: "one rule per integration (serde JSON+bincode incl. Bits, rlp incl. Bits, alloy-rlp, fastrlp 0.3/0.4 incl. encode_fixed_size, SCALE fixed, SCALE compact, SSZ, borsh incl. Bits, DER incl. Any/Int/Uint, num-bigint, postgres 17 column types, primitive-types, bytemuck, ark-ff 0.3/0.4 incl. bn254 Fr/Fq). Widths: exhaustive enumeration of all values for BITS in {0,1,2,3,7,8}; generated values for the rest of the standard grid plus 440/448 (55/56-byte RLP boundary), 535 (compact bound), 1024 for DER long-form lengths, and the specific widths of the non-generic impls. Values: format boundary list (0,1,0x3f/0x40,0x7f/0x80,0xff/0x100,2^14,2^30,2^(8k)-1/2^(8k)/2^(8k)+1 for every k,2^15/31/32/63/64/128 neighbours,10000^k neighbours,MAX,MAX-1), gen::uint alphabet, exact-bit-length values, small values in wide types, decimal multiples; field rules add bn254 moduli +-2. Oracle: hand-written reference encoders over num-bigint (self-tested at start-up against the codec crates' u64/u128 impls) and the codec crates' own primitive encodings. Non-trivial: value is 0, MAX, 2^k-1, 2^k or 2^k+1, or bit_len is a multiple of 8, or bit_len <= BITS/2 in a type of >= 128 bits; distinct by (rule,width,value).",
+        rule_text: "reader-based decoders (borsh deserialize_reader/from_reader, bincode deserialize_from, serde_json from_reader, SCALE IoReader fixed and compact) are also fed the complete encoding through a reader that delivers 1 byte per call and one that delivers it in two pieces; one rule per integration (serde JSON+bincode incl. Bits, rlp incl. Bits, alloy-rlp, fastrlp 0.3/0.4 incl. encode_fixed_size, SCALE fixed, SCALE compact, SSZ, borsh incl. Bits, DER incl. Any/Int/Uint, num-bigint, postgres 17 column types, primitive-types, bytemuck, ark-ff 0.3/0.4 incl. bn254 Fr/Fq). Widths: exhaustive enumeration of all values for BITS in {0,1,2,3,7,8}; generated values for the rest of the standard grid plus 440/448 (55/56-byte RLP boundary), 535 (compact bound), 1024 for DER long-form lengths, and the specific widths of the non-generic impls. Values: format boundary list (0,1,0x3f/0x40,0x7f/0x80,0xff/0x100,2^14,2^30,2^(8k)-1/2^(8k)/2^(8k)+1 for every k,2^15/31/32/63/64/128 neighbours,10000^k neighbours,MAX,MAX-1), gen::uint alphabet, exact-bit-length values, small values in wide types, decimal multiples; field rules add bn254 moduli +-2. Oracle: hand-written reference encoders over num-bigint (self-tested at start-up against the codec crates' u64/u128 impls) and the codec crates' own primitive encodings. Non-trivial: value is 0, MAX, 2^k-1, 2^k or 2^k+1, or bit_len is a multiple of 8, or bit_len <= BITS/2 in a type of >= 128 bits; distinct by (rule,width,value).",
         assumptions: vec![
             "num-bigint (byte conversion, shifts, formatting) is correct (oracle); self-tested against u128 formatting",
             "the codec crates' encodings of u64/u128 are correct instances of their formats (second reference; the hand-written encoders are self-tested against them)",
